@@ -108,13 +108,15 @@ def _site(name, d, kind):
     j = lambda *a: os.path.join(d, *a)  # noqa: E731
     if name == "lib_write_tum":
         from evo.tools import file_interface as fi
-        return [j("o.tum")], ["tum"], lambda c: fi.write_tum_trajectory_file(P(j("o.tum")), _traj(), confirm_overwrite=c)
+        return [j("o.tum")], ["tum"], lambda c: (fi.write_tum_trajectory_file(P(j("o.tum")), _traj(), c) if kind == "Path"        # third positional argument
+                                                 else fi.write_tum_trajectory_file(P(j("o.tum")), _traj(), confirm_overwrite=c))
     if name == "lib_write_kitti":
         from evo.tools import file_interface as fi
         return [j("o.kitti")], ["kitti"], lambda c: fi.write_kitti_poses_file(P(j("o.kitti")), _traj(), confirm_overwrite=c)
     if name == "lib_save_res":
         from evo.tools import file_interface as fi
-        return [j("o.zip")], ["res"], lambda c: fi.save_res_file(P(j("o.zip")), _result(), confirm_overwrite=c)
+        return [j("o.zip")], ["res"], lambda c: (fi.save_res_file(P(j("o.zip")), _result(), c) if kind == "str"
+                                               else fi.save_res_file(P(j("o.zip")), _result(), confirm_overwrite=c))
     if name == "lib_save_table":
         from evo.tools import pandas_bridge as pb
         import pandas as pd
@@ -254,7 +256,10 @@ def execute(case):
         for k, t in enumerate(targets):
             h = _h(t)
             after.append("absent" if h is None else ("old" if h == before[k] else "new"))
-            valid.append(True if after[-1] != "new" else _valid(t, validators[k]))
+            ok = True if after[-1] != "new" else _valid(t, validators[k])
+            if ok and after[-1] == "new" and before[k] is not None and junk:
+                ok = JUNK not in open(t, "rb").read()          # "replaced": nothing of the old content is left in the file
+            valid.append(ok)
         expected = {os.path.basename(t) for t in targets} | {"ref.txt", "est.txt", "est2.txt", "r1.zip", "r2.zip"}
         stray = len([f for f in os.listdir(d) if f not in expected])
         return {"after": after, "prompts": prompts, "valid": valid, "stray": stray, "exc": exc}
